@@ -26,3 +26,9 @@ func newRequest(tag any, src string) *http.Request {
 	}
 	return req.WithContext(context.WithValue(context.Background(), ctxKey{}, tag))
 }
+
+// source tokens share prefixes and suffixes and differ in case, so that a key
+// built from a truncated, trimmed or case-folded token merges two sources
+var srcNames = []string{"10.0.0.1", "10.0.0.10", "10.0.0.11", "110.0.0.1", "fe80::1", "FE80::1", "x", "X", "10.0.0.1 ", "0.0.0.1", "10.0.0.2", "10.0.0.20", "[::1]", "::1"}
+
+func srcName(i int) string { return srcNames[i] } // at most 12 sources are ever drawn
